@@ -20,6 +20,8 @@ def run(ck, tier, seed):
     # direction and the opposite one: the final positioning walks the slots in reverse order there
     for k, cj in enumerate(corpus.cmap_jobs(n=25 if q else 300, seed=seed, dirs=(0, 1, 3))):
         jobs.append({"font": cj["font"], "cps": cj["cps"], "dir": cj["dir"], "p2": p2s[1:4] if q else p2s, "lineno": 200000 + k})
+    for k, aj in enumerate(corpus.advy_jobs(tmp)):          # vertical advances
+        jobs.append({"font": aj["font"], "cps": aj["cps"], "dir": aj["dir"], "p2": p2s, "lineno": 300000 + k})
     jf = os.path.join(tmp, "jobs.ndjson")
     rec = os.path.join(tmp, "pairs.ndjson")
     open(jf, "w").write("\n".join(json.dumps(j) for j in jobs) + "\n")
